@@ -55,4 +55,5 @@ theorem term_equivariant (a b : ℕ → Q) (ha : ∀ d, 0 < a d) (st : LState) (
 example : wtsInit ((1/1000000000 : Q) * (1/4)) ([0, 1, 1/2].map fun x => (1/1000000000 : Q) * x + 7) =
     wtsInit (1/4) [0, 1, 1/2] := weights_affine_invariant _ _ _ (by norm_num) _
 
+
 end Amisc.C17
